@@ -54,12 +54,14 @@ RULE = ("(a) random Hermitian 3D models x generic k: band-summed internal Berry 
         "distinct = distinct generated case")
 ASSUMPTIONS = ["internal terms only (kwargs_formula external_terms=False), as in the statement",
                "Fermi level at the centre of a global gap >= GAP_MIN x hopping scale found on the harness' own 60x60 mesh",
-               "discretisation error of a 60x60 mesh for gap/hopping-scale >= 0.1 is far below 0.02 (calibrated: <= 1e-6 at ratio 0.10, extrapolated 4e-3 at 0.05)",
+               "discretisation error of a 60x60 mesh for gap/hopping-scale >= 0.13 is far below 0.02 (calibrated worst family: 1e-4 at ratio 0.133, 9e-4 at 0.10, 1.2e-2 at 0.067)",
                "constants e, h, hbar from scipy.constants; V_cell = |det(lattice)| computed by the harness"]
 MIN_NONTRIVIAL = {"quick": 30, "thorough": 1500}
 
 NMESH = 60
-GAP_MIN = 0.1     # global gap / hopping scale; calibrated: |v-round(v)| <= 1e-6 at 0.10, 2e-7 at 0.11, 1e-10 at 0.15
+GAP_MIN = 0.13    # global gap / hopping scale.  Calibration of |v - round(v)| on a 60x60 mesh for the slowest-converging
+#                   family (QWZ with winding (2,1): effective mesh 30): 1.2e-2 at ratio 0.067, 9e-4 at 0.10, 1e-4 at 0.133,
+#                   1.4e-5 at 0.167, 2e-6 at 0.2;  Haldane: 1e-6 at 0.10, 1e-10 at 0.15.  So >= 200x margin to TOL_INT.
 TOL_A = 1e-7
 TOL_INT = 0.02
 
@@ -236,18 +238,18 @@ def chern_case(draw):
     d = dict(family=family, rs=draw(st.integers(0, 2 ** 32)))
     if family in ("haldane_tbm", "haldane_ptb", "haldane"):
         d["hop1"] = draw(st.sampled_from([-1.0, 1.0])) * draw(fl(0.5, 2.0))
-        d["r2"] = draw(st.sampled_from([-1.0, 1.0])) * draw(fl(0.1, 0.3))          # hop2 / |hop1|
+        d["r2"] = draw(st.sampled_from([-1.0, 1.0])) * draw(fl(0.12, 0.3))         # hop2 / |hop1|
         d["phase"] = draw(st.sampled_from(["topological", "topological", "topological", "trivial+", "trivial-"]))
-        d["phi"] = draw(st.sampled_from([-1.0, 1.0])) * draw(fl(0.55, 2.59))       # |sin phi| >= 0.52
-        d["x"] = draw(fl(-0.5, 0.5)) if d["phase"] == "topological" else draw(fl(0.3, 2.0))
+        d["phi"] = draw(st.sampled_from([-1.0, 1.0])) * draw(fl(0.78, 2.36))       # |sin phi| >= 0.70
+        d["x"] = draw(fl(-0.3, 0.3)) if d["phase"] == "topological" else draw(fl(0.35, 2.0))
     if family == "qwz":
         d["n1"], d["n2"] = draw(st.sampled_from([1, 1, 2, -1])), draw(st.sampled_from([1, 1, 2, -1, -2]))
-        d["u"] = draw(st.sampled_from([-1.0, 1.0])) * draw(st.one_of(fl(0.5, 1.5), fl(0.4, 1.6), fl(2.6, 4.0)))   # |u|<2B topological
+        d["u"] = draw(st.sampled_from([-1.0, 1.0])) * draw(st.one_of(fl(0.6, 1.4), fl(0.6, 1.4), fl(2.6, 4.0)))   # |u|<2B topological
         d["A"] = draw(fl(0.6, 1.5))
     if family in ("qwz", "haldane", "random"):
         d["n"] = draw(st.integers(2, 3))
         d["e3"] = draw(st.sampled_from([-1.0, 1.0])) * draw(fl(4.0, 8.0))
-        d["eps"] = draw(st.sampled_from([0.0, 0.1, 0.3]))   # perturbation norm / unperturbed gap
+        d["eps"] = draw(st.sampled_from([0.0, 0.1, 0.2]))   # perturbation norm / unperturbed gap
         d["npert"] = draw(st.integers(0, 4))
         d["mix"] = draw(st.booleans())
         d["route"] = draw(st.sampled_from(["handbuilt", "handbuilt", "pythtb"]))
